@@ -540,29 +540,91 @@ pub fn local_table_size_one(size: u32, u: usize, acked: bool, verbose: bool) -> 
     v
 }
 
+/// The same rule with the real *client* as the subject: it advertises SETTINGS_HEADER_TABLE_SIZE = size, the peer acknowledges,
+/// and the response's header block starts with a table size update u.
+pub fn local_table_size_client_one(size: u32, u: usize, verbose: bool) -> Vec<(String, String, String)> {
+    use std::future::Future;
+    let mut v = vec![];
+    let mut cb = h2::client::Builder::new();
+    cb.header_table_size(size);
+    let cfg = T2Cfg { role: Side::Client, peer_settings: vec![], client: Some(cb), server: None, policy: IoPolicy::default() };
+    let mut t = T2::new(&cfg, vec![]);
+    t.drive(100);
+    t.peer_ack_settings();
+    t.drive(100);
+    let flag = Flag::new(false);
+    let w = waker_of(&flag);
+    let mut cx = Context::from_waker(&w);
+    let mut panics = vec![];
+    let sent = guarded(&mut panics, "send_request", || {
+        let sr = t.send_request.as_mut()?;
+        let _ = sr.poll_ready(&mut cx);
+        sr.send_request(simple_request("/t", false), true).ok()
+    })
+    .flatten();
+    let label = format!("client advertised {} (acknowledged by the peer), size update {} at the start of the response", size, u);
+    let Some((mut rf, _ss)) = sent else {
+        v.push(("C14.local-table-size".to_string(), "client-request-not-sent".to_string(), format!("{}: the request could not be sent (connection {:?}, {:?})", label, t.conn_result, panics)));
+        t.panics.extend(panics);
+        for p in t.finish() {
+            v.push(("C14.panic".into(), "local-table-size-client".into(), format!("{}: panic {}", label, p.lines().next().unwrap_or(""))));
+        }
+        return v;
+    };
+    t.drive(100);
+    let mut block = size_update(u);
+    block.extend(T2::block(&[(":status", "200")]));
+    t.peer_send(&wf::headers(1, &block, true, true));
+    t.drive(100);
+    t.catch_up();
+    let r = guarded(&mut panics, "poll response", || std::pin::Pin::new(&mut rf).poll(&mut cx));
+    let delivered = matches!(&r, Some(Poll::Ready(Ok(resp))) if resp.status().as_u16() == 200);
+    let goaway = t.goaway_sent();
+    let bound = size as usize;
+    if u <= bound {
+        if !delivered || goaway.is_some() {
+            v.push(("C14.local-table-size".to_string(), "legal-update-rejected:client".to_string(), format!("{}: the update is within the bound in force ({}), yet the response was not delivered (GOAWAY {:?}, connection {:?})", label, bound, goaway, t.conn_result)));
+        }
+    } else if delivered && goaway.is_none() {
+        v.push(("C14.local-table-size".into(), "oversized-update-accepted:client".into(), format!("{}: the update exceeds the acknowledged bound {} and was accepted", label, bound)));
+    }
+    if verbose {
+        println!("{}: delivered {} goaway {:?}", label, delivered, goaway);
+    }
+    safe_drop(&mut panics, "ResponseFuture", rf);
+    t.panics.extend(panics);
+    for p in t.finish() {
+        v.push(("C14.panic".into(), "local-table-size-client".into(), format!("{}: panic {}", label, p.lines().next().unwrap_or(""))));
+    }
+    v
+}
+
 pub fn local_table_size_sweep(out: &mut Outcome, vios: &mut VioSet) {
-    let mut jobs: Vec<(u32, usize, bool)> = vec![];
-    for size in [0u32, 100, 4096, 8192, 65_536] {
-        for u in [0usize, 1, 30, 31, 100, 101, 4096, 4097, 8192, 8193, 65_536, 65_537] {
-            // (the T2 handshake acknowledges the subject's initial SETTINGS, so only the acknowledged situation can be set up;
-            // the 'not before the acknowledgement' half is covered for windows by the X2 model)
-            jobs.push((size, u, true));
+    // (size, u, acked, client subject)
+    let mut jobs: Vec<(u32, usize, bool, bool)> = vec![];
+    for client in [false, true] {
+        for size in [0u32, 100, 4096, 8192, 65_536] {
+            for u in [0usize, 1, 30, 31, 100, 101, 4096, 4097, 8192, 8193, 65_536, 65_537] {
+                // (the T2 handshake acknowledges the subject's initial SETTINGS, so only the acknowledged situation can be set up;
+                // the 'not before the acknowledgement' half is covered for windows by the X2 model)
+                jobs.push((size, u, true, client));
+            }
         }
     }
     let found = std::sync::Mutex::new(vec![]);
     par_for(jobs.len(), |i| {
-        let (size, u, acked) = jobs[i];
-        let vs = local_table_size_one(size, u, acked, false);
+        let (size, u, acked, client) = jobs[i];
+        let vs = if client { local_table_size_client_one(size, u, false) } else { local_table_size_one(size, u, acked, false) };
         if !vs.is_empty() {
             found.lock().unwrap().push((jobs[i], vs));
         }
     });
-    for ((size, u, acked), vs) in found.into_inner().unwrap() {
+    for ((size, u, acked, client), vs) in found.into_inner().unwrap() {
         for (rule, sig, what) in vs {
-            vios.add(Violation { rule, signature: sig, what, replay: json!({"harness": "c14.table", "size": size, "u": u, "acked": acked}) });
+            vios.add(Violation { rule, signature: sig, what, replay: json!({"harness": "c14.table", "size": size, "u": u, "acked": acked, "client": client}) });
         }
     }
-    out.harness("local-header-table-size sweep", json!({"cases": jobs.len()}));
+    out.harness("local-header-table-size sweep", json!({"cases": jobs.len(), "server_subject": jobs.len() / 2, "client_subject": jobs.len() / 2}));
     out.add_count("evaluations", jobs.len() as u64);
     out.add_count("traces_validated_against_impl", jobs.len() as u64);
 }
@@ -611,7 +673,8 @@ pub fn run(ctx: &Ctx) -> Outcome {
 pub fn replay(v: &serde_json::Value) -> Option<bool> {
     let h = v["harness"].as_str().unwrap_or("");
     if h == "c14.table" {
-        let vs = local_table_size_one(v["size"].as_u64().unwrap_or(0) as u32, v["u"].as_u64().unwrap_or(0) as usize, v["acked"].as_bool().unwrap_or(true), true);
+        let (size, u) = (v["size"].as_u64().unwrap_or(0) as u32, v["u"].as_u64().unwrap_or(0) as usize);
+        let vs = if v["client"].as_bool().unwrap_or(false) { local_table_size_client_one(size, u, true) } else { local_table_size_one(size, u, v["acked"].as_bool().unwrap_or(true), true) };
         for (r, _, w) in &vs {
             println!("RULE VIOLATED: {} {}", r, w);
         }
